@@ -4,6 +4,7 @@
 #   2. false-alarm corpus: every check on every refactoring of refactors/ (and repairs/): silent;
 #   3. sensitivity corpus: the check of its own property on every entry of seeded/ and mutants/.
 # Writes a summary to stdout; details under /tmp/regress.*.out
+export GODICHECK_SWEEP_CACHE=$(mktemp -d /tmp/godicheck-sweep-cache.XXXXXX); trap 'rm -rf "$GODICHECK_SWEEP_CACHE"' EXIT
 cd "$(dirname "$0")/.."
 fail=0
 for p in C01 C02 C03 C04 C05 C06 C07 C08 C09 C10 C11 C12 C13 C14 C15 C16 C17 C18 C19 C20; do
@@ -19,4 +20,3 @@ echo "repairs: $(grep -c ALL-OK /tmp/regress.repairs.out) silent of $(ls -d repa
 tools/sweep.sh auto seeded/*/patch.diff mutants/*.diff > /tmp/regress.detect.out 2>&1
 echo "sensitivity: $(grep -c '=1\[' /tmp/regress.detect.out) detected of $(grep -c patch.diff /tmp/regress.detect.out | cat) + $(ls mutants/*.diff | wc -l) mutants; not detected:"
 grep -v '=1\[' /tmp/regress.detect.out
-rm -rf "${GODICHECK_SWEEP_CACHE:-/tmp/godicheck-sweep-cache}"
